@@ -678,7 +678,68 @@ func genC17(seed uint64, tier Tier) *Case {
 
 // ---- C19: asynchronous search across restarts -----------------------------------------------------
 
+// genC19Retention is the sub-profile "queued searches under retention" (every sixth seed of C19): the store runs
+// with a size limit, several asynchronous searches are queued behind one worker, each step costs simulated time, and
+// a writer goes on ingesting, so that fractions a queued search has listed are retired before it reaches them. Such a
+// fraction is skipped ("deleted since"). Weak oracle, as everywhere under retention: the request stays known, ends
+// within the hour, lists only documents that were submitted and match, and the process lives.
+func genC19Retention(seed uint64, tier Tier) *Case {
+	g := newGen(seed, "c19r")
+	c := &Case{Property: "C19", Profile: "c19-retention", Seed: seed}
+	c.Knobs = g.knobs()
+	c.Knobs.FracSize = uint64(g.r.Range(1200, 4000))
+	// (the limit stays above anything the fraction under the writer can reach between two maintenance passes: small
+	// bulks that cost simulated time, maintenance every 20 ms; the recipe of the C07 retention runs)
+	c.Knobs.TotalSize = c.Knobs.FracSize + uint64(g.r.Range(25000, 50000))
+	c.Knobs.MaintenanceDelayMs = 20
+	c.Knobs.SyncLatencyUs = []int{1000, 3000}[g.r.Intn(2)]
+	c.Knobs.StepCostNs = []int{20000, 100000}[g.r.Intn(2)]
+	c.Knobs.AsyncParallelism = 1
+	c.Knobs.AggLimits = false
+	c.Mode = "cold"
+	c.Oracles.Retention = true
+	g.smallDocs = true
+	bulks := func(n int) Step {
+		var ops []Op
+		for i := 0; i < n; i++ {
+			ops = append(ops, g.bulk(g.r.Range(1, 6)))
+		}
+		return seqStep(ops...)
+	}
+	c.Steps = append(c.Steps, Step{Kind: "start"}, bulks(g.r.Range(25, 45)), Step{Kind: "wait_idle"})
+	var reqs []*AsyncReq
+	for i := 0; i < g.r.Range(2, 4); i++ {
+		s := g.search(true)
+		s.Size = math.MaxInt32
+		s.WithTotal = false
+		s.From, s.To = 0, math.MaxInt64
+		a, b := g.r.Uint64(), g.r.Uint64()
+		id := fmt.Sprintf("%08x-%04x-4%03x-%04x-%012x", uint32(a>>32), uint16(a>>16), uint16(a)&0xfff, 0x8000|uint16(b>>48)&0x3fff, b&0xffffffffffff)
+		reqs = append(reqs, &AsyncReq{ID: id, S: s})
+	}
+	for _, a := range reqs {
+		c.Steps = append(c.Steps, Step{Kind: "async_start", Async: a})
+	}
+	// the writer goes on: retention retires what the queued searches have listed
+	c.Steps = append(c.Steps, bulks(g.r.Range(40, 90)))
+	switch g.r.Intn(4) {
+	case 0:
+		c.Steps = append(c.Steps, Step{Kind: "kill"}, Step{Kind: "start"})
+	case 1:
+		c.Steps = append(c.Steps, Step{Kind: "stop"}, Step{Kind: "start"})
+	}
+	for _, a := range reqs {
+		c.Steps = append(c.Steps, Step{Kind: "async_wait", Async: a})
+	}
+	c.Steps = append(c.Steps, Step{Kind: "validate", Label: "after-searches"})
+	c.Battery = g.battery(3)
+	return c
+}
+
 func genC19(seed uint64, tier Tier) *Case {
+	if seed%6 == 5 {
+		return genC19Retention(seed, tier)
+	}
 	g := newGen(seed, "c19")
 	c := &Case{Property: "C19", Profile: "c19", Seed: seed}
 	c.Knobs = g.knobs()
